@@ -47,7 +47,8 @@ def random_obs(rng, spec):
     cont = set(spec.get("continuous", []))
     for v in zs:
         if v in cont:
-            obs[str(v)] = rng.choice(range(-8, 9)) / 4
+            # Python ints and non-integer floats mixed (observations of one evidence are stacked when folded)
+            obs[str(v)] = rng.choice(range(-2, 3)) if rng.random() < 0.4 else rng.choice([-7, -5, -3, -1, 1, 3, 5, 7]) / 4
         else:
             obs[str(v)] = rng.randrange(spec["states"][str(v)])
     return obs
